@@ -104,7 +104,12 @@ Events(s) ==
             THEN {[E("NativeDelegate") EXCEPT !.v = v, !.x = x] : v \in Vals, x \in NativeAmounts}
                  \cup {[E("NativeUndelegate") EXCEPT !.v = v, !.x = x] : v \in Vals, x \in NativeAmounts}
                  \cup {[E("Unbond") EXCEPT !.v = v] : v \in {v \in Vals : IsBonded(s, v)}}
-                 \cup {[E("Rebond") EXCEPT !.v = v] : v \in {v \in Vals : ~IsBonded(s, v)}}
+                 \cup {[E("Rebond") EXCEPT !.v = v] : v \in {v \in Vals : ValExists(s, v) /\ ~IsBonded(s, v)}}
+            ELSE {})
+      \* the operator has withdrawn the self-delegation of a validator that is out of the bonded set and its unbonding has matured:
+      \* x/staking removes the validator if nobody - the module included - has stake on it (AfterValidatorRemoved)
+      \cup (IF "Remove" \in Actions
+            THEN {[E("Remove") EXCEPT !.v = v] : v \in {v \in Vals : ValExists(s, v) /\ ~IsBonded(s, v) /\ ~HasMod(s, v) /\ NativeTokens(s, v) = SelfStake0}}
             ELSE {})
       \* x/distribution allocates rewards in its begin-blocker only, before any transaction of the block
       \cup (IF "Accrue" \in Actions /\ hist # <<>> /\ hist[Len(hist)].ev \in {"BeginBlock", "Accrue"}
@@ -135,6 +140,9 @@ Apply(s, e) ==
     [] e.ev = "NativeDelegate" -> Ok(NativeChange(s, e.v, e.x))
     [] e.ev = "NativeUndelegate" -> IF BLe(BAdd(e.x, SelfStake0), NativeTokens(s, e.v)) THEN Ok(NativeChange(s, e.v, BNeg(e.x))) ELSE Fail("no delegation", s)
     [] e.ev = "Unbond" -> Ok([s EXCEPT !.env.vals[e.v].status = "unbonding", !.env.vals[e.v].jailed = TRUE, !.env.totalBonded = BSub(@, s.env.vals[e.v].tokens), !.flag = TRUE])
+    [] e.ev = "Remove" -> Ok([s EXCEPT !.env.vals[e.v] = [status |-> "removed", jailed |-> TRUE, tokens |-> "0", dshares |-> "0", modShares |-> "0", hasMod |-> FALSE, pending |-> NoCoins],
+                                        !.vals = [w \in DOMAIN @ \ {e.v} |-> @[w]],
+                                        !.flag = TRUE])
     [] e.ev = "Rebond" -> Ok([s EXCEPT !.env.vals[e.v].status = "bonded", !.env.vals[e.v].jailed = FALSE, !.env.totalBonded = BAdd(@, s.env.vals[e.v].tokens), !.flag = TRUE])
 
 -----------------------------------------------------------------------------
@@ -148,6 +156,7 @@ ErrClass(err) ==
     [] err = "panic: negative coin amount" -> "negcoin"
     [] err = "transitive redelegation" -> "transitive"
     [] err = "panic: Int overflow" -> "overflow"
+    [] err = "validator does not exist" -> "novalidator"
     [] OTHER -> "other"
 
 P(kind) == [kind |-> kind, d |-> "", v |-> "", dst |-> "", a |-> "", x |-> "", order |-> "", limit |-> 0, ok |-> TRUE, err |-> "", errc |-> "", panic |-> FALSE,
@@ -160,7 +169,7 @@ Outcome(p, r) == [p EXCEPT !.ok = r.ok, !.err = r.err, !.errc = ErrClass(r.err),
 
 ModelProbes(s) ==
   LET probeDel == CHOOSE d \in Dels : \A d2 \in Dels : DelIdx(d2) <= DelIdx(d)
-      ps1 == {Outcome([P("delegate") EXCEPT !.d = probeDel, !.v = v, !.a = a, !.x = "1"], Delegate(s, probeDel, v, a, "1")) : v \in Vals, a \in DOMAIN s.assets}
+      ps1 == {Outcome([P("delegate") EXCEPT !.d = probeDel, !.v = v, !.a = a, !.x = "1"], Delegate(s, probeDel, v, a, "1")) : v \in {v \in Vals : ValExists(s, v)}, a \in DOMAIN s.assets}
       ps2 == {LET r == Claim(s, k[1], k[2], k[3]) IN [Outcome([P("claim") EXCEPT !.d = k[1], !.v = k[2], !.a = k[3]], r) EXCEPT !.paid = IF r.ok THEN PaidSeq(s, r.s, k[1]) ELSE <<>>] : k \in DOMAIN s.dels}
       ps3 == {Outcome([P("exit") EXCEPT !.d = k[1], !.v = k[2], !.a = k[3], !.x = s.bals[k]], Undelegate(s, k[1], k[2], k[3], s.bals[k])) : k \in {k \in DOMAIN s.dels : BIsNum(s.bals[k]) /\ IsPos(s.bals[k])}}
       ps4 == {Outcome([P("undelPlus") EXCEPT !.d = k[1], !.v = k[2], !.a = k[3], !.x = BAdd(s.bals[k], 1)], Undelegate(s, k[1], k[2], k[3], BAdd(s.bals[k], 1))) : k \in {k \in DOMAIN s.dels : BIsNum(s.bals[k])}}
